@@ -127,3 +127,11 @@ def install_cycle_monitors() -> None:
             self.system.__dict__.setdefault('_vf_star_in_progress', []).append((self.builder.current.module.fullName(), modname))
         return orig_all(self, modname)
     astbuilder.ModuleVistor._importAll = _importAll  # type: ignore[method-assign]
+    orig_names = astbuilder.ModuleVistor._importNames
+
+    def _importNames(self: Any, modname: str, names: Any) -> None:
+        mod = self.system.allobjects.get(modname)
+        if isinstance(mod, model.Module) and mod.state is model.ProcessingState.PROCESSING:
+            self.system.__dict__.setdefault('_vf_from_in_progress', []).append((self.builder.current.module.fullName(), modname))
+        return orig_names(self, modname, names)
+    astbuilder.ModuleVistor._importNames = _importNames  # type: ignore[method-assign]
